@@ -1157,7 +1157,7 @@ Error JitAllocator::query(Out<Span> out, void* rx) const noexcept {
   uint32_t area_start = uint32_t(offset >> pool->granularity_log2);
 
   bool is_used = Support::bit_vector_get_bit(block->_used_bit_vector, area_start);
-  if (ASMJIT_UNLIKELY(!is_used)) {
+  if (ASMJIT_UNLIKELY(!is_used || area_start < block->initial_area_start())) {
     return make_error(Error::kInvalidArgument);
   }
 
